@@ -6,7 +6,7 @@ import ast
 from ..cfg import cfg_of
 from ..core import (
     ancestors, assigns_to, body_walk, call_attr, call_name, calls_in, const_value, dotted, enclosing_stmt, handler_catches,
-    in_block, is_const, kwarg, names_in, nodes_of_type, parent, stores_to, unparse, walk_local, enclosing_withs,
+    in_block, is_const, kwarg, names_in, nodes_of_type, parent, stores_to, unparse, walk_local, enclosing_withs, cond_holds,
 )
 
 CP = "joblib/compressor.py"
@@ -233,6 +233,21 @@ def cursor(ctx):
             n += 1
             st = [s for s in blk if isinstance(s, ast.Assign) and "self._buffer" in stores_to(s) and const_value(s.value) == b""]
             ctx.check(bool(st), a, "a buffer consumed whole is replaced by b''", "the whole buffer is handed out but not emptied: it would be returned again")
+    g = cfg_of(f)
+    lpb = _loops(f)
+    if lpb:
+        # def-before-use inside one iteration: the bytes counted/collected are the bytes sliced in THIS iteration
+        defs = [a for a in nodes_of_type(lpb[0], ast.Assign) if "data" in stores_to(a)]
+        uses = [s_ for s_ in body_walk(lpb[0]) if isinstance(s_, (ast.Expr, ast.AugAssign)) and "data" in names_in(s_) and "data" not in stores_to(s_)]
+        head = g.nodes_of(lpb[0])
+        ctx.check(bool(defs) and bool(uses) and g.every_path_from(head, g.nodes_of_all(defs), g.nodes_of_all(uses)), uses[0] if uses else lpb[0],
+                  "every use of `data` in the loop is preceded, in the same iteration, by a slice of the refilled buffer",
+                  "`data` is used in the read loop without being taken from the buffer in that iteration (stale or undefined bytes are returned)")
+    fast = [a for a in nodes_of_type(f, ast.Assign) if "data" in stores_to(a) and isinstance(a.value, ast.Subscript) and isinstance(a.value.slice, ast.Slice) and a.value.slice.lower is not None]
+    for a in fast:
+        rets = [r for r in nodes_of_type(f, ast.Return) if r.value is not None and "data" in names_in(r.value)]
+        ctx.check(bool(rets) and g.every_path_from(g.nodes_of(a), g.nodes_of_all(rets), None, skip_exc=True), a, "the fast path returns the slice it took (no fall-through into the refill loop)",
+                  "the fast path takes bytes from the buffer but does not return them: they are lost and the refill loop reads further bytes instead")
     ctx.floor(n, 3, "sites handing out buffer data in _read_block")
     fb = ZF(ctx, "_fill_buffer")
     lp = _loops(fb)
@@ -242,6 +257,10 @@ def cursor(ctx):
     rebase = [s for s in ra.body if isinstance(s, ast.Assign) and "self._buffer" in stores_to(s) and unparse(s.value) == "self._buffer[self._buffer_offset:]"]
     lpa = _loops(ra)
     ctx.check(bool(rebase) and lpa and ra.body.index(rebase[0]) < ra.body.index(lpa[0]), rebase[0] if rebase else ra, "_read_all starts from the unread part of the buffer")
+    zero = [s for s in ra.body if isinstance(s, ast.Assign) and "self._buffer_offset" in stores_to(s) and is_const(s.value, 0)]
+    ctx.check(bool(rebase) and bool(zero) and bool(lpa) and ra.body.index(rebase[0]) < ra.body.index(zero[0]) < ra.body.index(lpa[0]), zero[0] if zero else ra,
+              "and resets the offset to 0 after re-basing (the emptiness test of _fill_buffer compares offset with the re-based length)",
+              "_read_all re-bases the buffer without resetting the offset: when offset == remaining length the unread bytes are taken for consumed")
     app = [c for c in calls_in(ra) if call_name(c) == "blocks.append"]
     ctx.check(bool(app) and dotted(app[0].args[0]) == "self._buffer", app[0] if app else ra, "_read_all collects each whole buffer")
     for fn in (f, ra):
@@ -384,6 +403,46 @@ def flush(ctx):
     ctx.check(bool(first), first[0] if first else c, "closing twice is a no-op")
 
 
+def ownership(ctx):
+    """Who may close the underlying file: close() closes self._fp exactly when __init__ opened it by name; a file
+    object / in-memory buffer handed in by the caller (dump(obj, buf), load(buf)) stays open and readable."""
+    init = ZF(ctx, "__init__")
+    g = cfg_of(init)
+    opens = [a for a in assigns_to(init, "self._fp") if isinstance(a.value, ast.Call) and call_name(a.value) in ("io.open", "open")]
+    borrows = [a for a in assigns_to(init, "self._fp") if dotted(a.value) == "filename"]
+    owns = [a for a in assigns_to(init, "self._closefp") if is_const(a.value, True)]
+    ctx.check(len(opens) == 1 and len(borrows) == 1, opens[0] if opens else init, "__init__ either opens the named file or borrows the caller's file object",
+              "__init__ no longer has one opening and one borrowing assignment of self._fp")
+    if opens:
+        ctx.check(bool(owns) and all(g.every_path_to(g.nodes_of(o), g.nodes_of_all(opens)) for o in owns) and g.every_path_from(g.nodes_of(opens[0]), g.nodes_of_all(owns), None, skip_exc=True),
+                  owns[0] if owns else opens[0], "ownership (_closefp = True) is recorded exactly on the path that opened the file",
+                  "ownership of the underlying file is not recorded exactly where it is opened (a borrowed file would be closed, or an opened one leaked)")
+    if borrows and owns:
+        ctx.check(not any(g.path_exists(g.nodes_of(b), g.nodes_of(o)) or g.path_exists(g.nodes_of(o), g.nodes_of(b)) for b in borrows for o in owns), borrows[0],
+                  "a borrowed file object is never marked as owned")
+    dflt = [a for a in assigns_to(init, "self._closefp") if is_const(a.value, False)]
+    ctx.check(bool(dflt) and all(g.every_path_to(g.nodes_of_all(opens + borrows), g.nodes_of(d)) for d in dflt[:1]), dflt[0] if dflt else init, "the default is 'not owned'",
+              "self._closefp has no 'not owned' default before the file is attached")
+    c = ZF(ctx, "close")
+    gc_ = cfg_of(c)
+    cl = [x for x in calls_in(c) if call_name(x) == "self._fp.close"]
+    if not cl:
+        ctx.bad(c, "close() never closes the underlying file it opened", key="%s::%s.close::closes owned file" % (CP, Z))
+    for x in cl:
+        raw = gc_.conditions_at(gc_.nodes_of(x))
+        conds = [(unparse(t), pol) for (_, t, pol) in raw]
+        ctx.check(cond_holds(raw, "self._closefp", True), x, "close() closes the underlying file only when it owns it",
+                  "close() closes the underlying file under %s, not under `self._closefp`: a caller's buffer is closed by dump()/load()" % ([c_ for c_ in conds if "_mode" not in c_[0]] or "no ownership test"))
+    n = 0
+    for q, fn in ctx.repo.mod(CP).funcs.items():
+        if q.startswith(Z + ".") and fn.name != "close":
+            for x in calls_in(fn):
+                if call_name(x) == "self._fp.close":
+                    n += 1
+                    ctx.bad(x, "%s closes the underlying file outside close()" % q)
+    ctx.ok(c, "no other BinaryZlibFile method closes the underlying file", key="%s::%s::only close() closes _fp" % (CP, Z))
+
+
 def guards(ctx):
     from ..core import mentions
     want = {"read": "_check_can_read", "write": "_check_can_write", "seek": "_check_can_seek", "tell": "_check_not_closed", "readinto": None, "close": None}
@@ -408,7 +467,9 @@ def guards(ctx):
         if call_name(c) == "self._read_block":
             ctx.check(dotted(c.args[0]) == "size", c, "read(n) reads a block of n")
     z = [n for n in nodes_of_type(r, ast.If) if unparse(n.test) == "size == 0"]
-    ctx.check(bool(z) and const_value(z[0].body[-1].value) == b"", z[0] if z else r, "read(0) returns b''")
+    ctx.check(bool(z) and isinstance(z[0].body[-1], ast.Return) and const_value(z[0].body[-1].value) == b"", z[0] if z else r, "read(0) returns b''", "read(0) does not return b''")
+    disp = [c for c in calls_in(r) if call_name(c) in ("self._read_all", "self._read_block")]
+    ctx.check(len(disp) == 2 and all(isinstance(parent(c), ast.Return) for c in disp), disp[0] if disp else r, "read returns what _read_all/_read_block produced", "read drops the bytes produced by _read_all/_read_block")
     cc = ctx.repo.func(CP, Z + "._check_can_read")
     ctx.check("_MODE_READ_EOF" in ast.unparse(cc) and any(isinstance(n, ast.Raise) for n in body_walk(cc)), cc, "reading is refused unless the mode is READ or READ_EOF")
 
